@@ -636,6 +636,28 @@ func (env *specEnv) call(n *SCall) (TV, error) {
 		}
 		kk := mapKeyTerm(vc, S, env.view2(k, mt.Key()).T, mt.Key())
 		return TV{fmt.Sprintf("(and (not (= %s 0)) (select (select %s %s) %s))", m.T, env.h(S.MapHasKey(mt)), m.T, kk), "Bool", nil}, nil
+	case "forallvals":
+		// forallvals(v, m, P): P holds for every value v stored in map m
+		id, ok := n.Args[0].(*SIdent)
+		if !ok || len(n.Args) != 3 {
+			return TV{}, fmt.Errorf("forallvals(v, m, P)")
+		}
+		m, err := env.Term(n.Args[1])
+		if err != nil {
+			return TV{}, err
+		}
+		mt, ok := m.Ty.Underlying().(*types.Map)
+		if !ok {
+			return TV{}, fmt.Errorf("forallvals: not a map")
+		}
+		vc.nfresh++
+		bv := fmt.Sprintf("q!mk!%d", vc.nfresh)
+		val := fmt.Sprintf("(select (select %s %s) %s)", env.h(S.MapValKey(mt)), m.T, bv)
+		body, err := env.withBound(id.Name, TV{val, S.SortOf(mt.Elem()), mt.Elem()}, func() (TV, error) { return env.Term(n.Args[2]) })
+		if err != nil {
+			return TV{}, err
+		}
+		return TV{fmt.Sprintf("(=> (not (= %s 0)) (forall ((%s Int)) (! (=> (select (select %s %s) %s) %s) :pattern (%s))))", m.T, bv, env.h(S.MapHasKey(mt)), m.T, bv, body.T, val), "Bool", nil}, nil
 	case "nonnilvals":
 		// every value stored in map m is a non-nil reference
 		m, err := env.Term(n.Args[0])
